@@ -34,7 +34,8 @@ Variable cap : nat.
 (** facts a thread has established under the mutex and that stay true while it holds it *)
 Definition loc (c : config) (x : option (op * point)) : Prop :=
   match x with
-  | Some (_, PTestZero) | Some (_, PLoopState _) | Some (_, PWait _) => size_ c = cap
+  | Some (_, PTestZero) | Some (_, PLoopState _) => size_ c = cap
+  | Some (_, PWait _) => size_ c = cap /\ st c = OPEN
   | Some (_, PTestState) => size_ c <> cap
   | Some (_, PPush) => size_ c <> cap /\ st c = OPEN
   | Some (_, PSizeInc) => length (items c) = S (size_ c)
